@@ -610,7 +610,7 @@ Proof.
   apply (wp_finally_drop_gen E _ _ (cpostP E w (flat_map (fun k => ids_pair E (k, tt)) items))).
   - apply conserves_s_extend_loop. exact Hw.
   - intros w' (Hw' & Hc & lost & HP).
-    eapply wp_mono; [apply drop_map_acct_nolost; exact Hw' | |]; cbn beta.
+    eapply wp_mono; [apply unwind_map_acct_nolost; exact Hw' | |]; cbn beta.
     + intros _ w'' H. exists lost. unfold acct in *. perm_ids.
     + intros w'' H. exists lost. unfold acct in *. perm_ids.
 Qed.
@@ -639,7 +639,8 @@ Notation M := (M K V T). Notation world := (world K V T). Notation map := (map K
    WHICH objects were made, the callbacks are replayed as a pure function of
    the callback state: [clone_made src n i s] is the list of pairs that
    clone_loop writes when started in callback state [s] (it stops at the first
-   Clone that panics). *)
+   Clone that panics); [clone_orphans src n i s] is the key made by K::clone
+   whose V::clone then panicked (destroyed at once while unwinding). *)
 Definition clone_pair_res (p : kv) (s : T) : option kv * T :=
   let (ok, s1) := cloneK E s (fst p) in
   match ok with
@@ -648,6 +649,17 @@ Definition clone_pair_res (p : kv) (s : T) : option kv * T :=
                match ov with
                | None => (None, s2)
                | Some v' => (Some (k', v'), s2)
+               end
+  end.
+
+Definition clone_orphan (p : kv) (s : T) : list N :=
+  let (ok, s1) := cloneK E s (fst p) in
+  match ok with
+  | None => []
+  | Some k' => let (ov, s2) := cloneV E s1 (snd p) in
+               match ov with
+               | None => idK E k'
+               | Some _ => []
                end
   end.
 
@@ -665,28 +677,44 @@ Fixpoint clone_made (src : map) (n i : nat) (s : T) : list kv :=
       end
   end.
 
+Fixpoint clone_orphans (src : map) (n i : nat) (s : T) : list N :=
+  match n with
+  | 0 => []
+  | S n' =>
+      match nth_error (slots src) i with
+      | Some (Some p) =>
+          match clone_pair_res p s with
+          | (Some _, s') => clone_orphans src n' (S i) s'
+          | (None, _) => clone_orphan p s
+          end
+      | _ => []
+      end
+  end.
+
 Lemma clone_pair_spec p (w : world) :
   wp (clone_pair E p)
      (fun p' w1 => clone_pair_res p (cb w) = (Some p', cb w1) /\ self w1 = self w /\
                    dropped (log w1) = dropped (log w))
      (fun w1 => fst (clone_pair_res p (cb w)) = None /\ self w1 = self w /\
-                dropped (log w1) = dropped (log w)) w.
+                dropped (log w1) = dropped (log w) ++ clone_orphan p (cb w)) w.
 Proof.
-  unfold clone_pair, clone_pair_res.
+  unfold clone_pair, clone_pair_res, clone_orphan.
   apply wp_bind. apply wp_emit. apply wp_bind. apply wp_cbo_eq. simp_w.
   destruct (cloneK E (cb w) (fst p)) as [[k'|] s1]; cbn [fst snd].
-  - apply wp_bind. apply wp_emit. apply wp_bind. apply wp_cbo_eq. simp_w.
+  - apply wp_bind. apply wp_emit. apply wp_bind. apply wp_on_unwind. apply wp_cbo_eq. simp_w.
     destruct (cloneV E s1 (snd p)) as [[v'|] s2]; cbn [fst snd].
     + apply wp_ret. simp_w. split; [reflexivity|]. split; [reflexivity|].
       rewrite !dropped_app, dropped_cloneK, dropped_cloneV, !app_nil_r. reflexivity.
-    + simp_w. split; [reflexivity|]. split; [reflexivity|].
-      rewrite !dropped_app, dropped_cloneK, dropped_cloneV, !app_nil_r. reflexivity.
+    + apply (wp_cleans _ (idK E k')); [apply unwind_key_spec|]. simp_w.
+      intros w' Hs Hg. split; [reflexivity|]. split; [exact Hs|].
+      rewrite Hg, dropped_log_drops, !dropped_app, dropped_cloneK, dropped_cloneV, !app_nil_r. reflexivity.
   - simp_w. split; [reflexivity|]. split; [reflexivity|].
     rewrite !dropped_app, dropped_cloneK, !app_nil_r. reflexivity.
 Qed.
 
 Definition clone_post (src : map) (n i : nat) (w : world) (full : bool) (w' : world) : Prop :=
-  WF (self w') /\ cap (self w') = cap (self w) /\ dropped (log w') = dropped (log w) /\
+  WF (self w') /\ cap (self w') = cap (self w) /\
+  dropped (log w') = dropped (log w) ++ (if full then [] else clone_orphans src n i (cb w)) /\
   (full = true -> len (self w') = i + n /\ length (clone_made src n i (cb w)) = n) /\
   exists lost,
     Permutation (owned E (self w') ++ lost)
@@ -699,7 +727,8 @@ Lemma clone_loop_acct src : WF src -> forall n i (w : world),
 Proof.
   intros Hsrc. induction n as [|n IH]; intros i w Hw Hl Hc Hn; cbn [clone_loop].
   - apply wp_ret. unfold clone_post. cbn [clone_made flat_map length].
-    split; [exact Hw|]. split; [reflexivity|]. split; [reflexivity|]. split; [intros _; split; [lia | reflexivity]|].
+    split; [exact Hw|]. split; [reflexivity|]. split; [rewrite app_nil_r; reflexivity|].
+    split; [intros _; split; [lia | reflexivity]|].
     exists []. split; [reflexivity | auto].
   - assert (Hi : i < len src) by lia.
     destruct (WF_live _ _ Hsrc Hi) as [p Hp]. rewrite Hp.
@@ -723,7 +752,7 @@ Proof.
         unfold clone_post. cbn [clone_made]. rewrite Hp, Hr. rewrite Hb2 in *.
         cbn [flat_map length].
         split; [exact Hw3|]. split; [rewrite Hc3, Hc2, Hs1; reflexivity|].
-        split; [rewrite Hd3, Hg2; exact Hd1|].
+        split; [rewrite Hd3, Hg2, Hd1; reflexivity|].
         split.
         { intros Hfull. destruct (Hf3 Hfull) as [Ha Hb]. split; [lia | rewrite Hb; reflexivity]. }
         exists (lost1 ++ lost2). split.
@@ -731,16 +760,16 @@ Proof.
         { intros Ht. rewrite <- Hs1 in Ht. destruct (Ht1 Ht) as [-> Ht2]. destruct (Ht3 Ht2) as [-> Ht3'].
           split; [reflexivity | exact Ht3']. }
       * intros w3 (Hw3 & Hc3 & Hd3 & Hf3 & lost2 & HP3 & Ht3).
-        unfold clone_post. cbn [clone_made]. rewrite Hp, Hr. rewrite Hb2 in *.
+        unfold clone_post. cbn [clone_made clone_orphans]. rewrite Hp, Hr. rewrite Hb2 in *.
         cbn [flat_map length].
         split; [exact Hw3|]. split; [rewrite Hc3, Hc2, Hs1; reflexivity|].
-        split; [rewrite Hd3, Hg2; exact Hd1|].
+        split; [rewrite Hd3, Hg2, Hd1; reflexivity|].
         split; [discriminate|].
         exists (lost1 ++ lost2). split.
         { unfold acct in HP1. rewrite Hg2, Hs1 in HP1. perm_ids. }
         { intros Ht. rewrite <- Hs1 in Ht. destruct (Ht1 Ht) as [-> Ht2]. destruct (Ht3 Ht2) as [-> Ht3'].
           split; [reflexivity | exact Ht3']. }
-    + intros w1 (Hr & Hs1 & Hd1). unfold clone_post. cbn [clone_made]. rewrite Hp.
+    + intros w1 (Hr & Hs1 & Hd1). unfold clone_post. cbn [clone_made clone_orphans]. rewrite Hp.
       destruct (clone_pair_res p (cb w)) as [[x|] s']; [discriminate|]. cbn [flat_map].
       rewrite Hs1. split; [exact Hw|]. split; [reflexivity|]. split; [exact Hd1|]. split; [discriminate|].
       exists []. split; [reflexivity | auto].
@@ -786,11 +815,56 @@ Proof.
   - intros w' (d & Hg & HP). exists d. split; [rewrite Hg; apply dropped_log_drops | exact HP].
 Qed.
 
+(* the destructor that runs while unwinding: it cannot panic, and destroys everything *)
+Lemma unwind_range_log n : forall i (w : world),
+  (forall j, i <= j < i + n -> live (self w) j) ->
+  wp (unwind_range E n i)
+     (fun _ w' => exists d, log w' = log w ++ ev_drops d /\ Permutation (owned E (self w') ++ d) (owned E (self w)))
+     (fun _ => False) w.
+Proof.
+  induction n as [|n IH]; intros i w Hl; cbn [unwind_range].
+  - apply wp_ret. exists []. cbn [ev_drops List.map]. rewrite !app_nil_r. split; reflexivity.
+  - destruct (Hl i ltac:(lia)) as [p Hp].
+    apply wp_bind. eapply wp_p_read; [exact Hp|].
+    pose proof (owned_set_slot E (self w) i (Some p) None Hp) as HP.
+    apply wp_bind. eapply wp_mono; [apply unwind_pair_spec | |]; cbn beta; [|auto].
+    intros _ w1 [Hs Hg]. simp_w.
+    eapply wp_mono; [apply IH | |]; cbn beta; [| |auto].
+    + intros j Hj. rewrite Hs. apply live_set_slot_neq; [lia | apply Hl; lia].
+    + intros _ w2 (d & Hg2 & HP2). exists (ids_pair E p ++ d). split.
+      * rewrite Hg2, Hg. unfold ev_drops. rewrite map_app, app_assoc. reflexivity.
+      * rewrite Hs in HP2. perm_ids.
+Qed.
+
+Lemma unwind_map_log (w : world) :
+  WF (self w) ->
+  wp (unwind_map E)
+     (fun _ w' => (exists d, dropped (log w') = dropped (log w) ++ d /\
+                             Permutation (owned E (self w') ++ d) (owned E (self w))) /\
+                  (Tidy (self w) -> owned E (self w') = []))
+     (fun _ => False) w.
+Proof.
+  intros Hw.
+  assert (H2 : wp (unwind_map E)
+                  (fun _ w' => exists d, dropped (log w') = dropped (log w) ++ d /\
+                                         Permutation (owned E (self w') ++ d) (owned E (self w)))
+                  (fun _ => False) w).
+  { destruct Hw as [Hl Hs]. unfold unwind_map. apply wp_bind. apply wp_get_len.
+    eapply wp_mono; [apply unwind_range_log | |]; cbn beta.
+    - intros j Hj. apply Hs. lia.
+    - intros _ w' (d & Hg & HP). exists d. split; [rewrite Hg; apply dropped_log_drops | exact HP].
+    - intros w' []. }
+  eapply wp_mono; [apply (wp_conj _ _ _ _ _ _ (unwind_map_acct E w Hw) H2) | |]; cbn beta.
+  - intros u w' [(_ & _ & _ & _ & _ & Ht) Hd]. split; [exact Hd | exact Ht].
+  - intros w' [[] _].
+Qed.
+
 (* Clone for Map, from any well-formed empty destination (what sat beyond len
    is leaked by the overwriting writes: [lost]) *)
 Lemma clone_acct_gen src (w : world) :
   WF src -> WF (self w) -> len (self w) = 0 -> cap (self w) = cap src ->
   let made := flat_map (ids_pair E) (clone_made src (len src) 0 (cb w)) in
+  let orphan := clone_orphans src (len src) 0 (cb w) in
   wp (clone_from_src E src)
      (fun _ w' => WF (self w') /\ cap (self w') = cap (self w) /\ len (self w') = len src /\
                   length (clone_made src (len src) 0 (cb w)) = len src /\
@@ -798,11 +872,11 @@ Lemma clone_acct_gen src (w : world) :
                   exists lost, Permutation (owned E (self w') ++ lost) (owned E (self w) ++ made) /\
                                (Tidy (self w) -> lost = [] /\ Tidy (self w')))
      (fun w' => exists d lost, dropped (log w') = dropped (log w) ++ d /\
-                               Permutation (owned E (self w') ++ d ++ lost) (owned E (self w) ++ made) /\
-                               (Tidy (self w) -> lost = []))
+                               Permutation (owned E (self w') ++ d ++ lost) (owned E (self w) ++ made ++ orphan) /\
+                               (Tidy (self w) -> lost = [] /\ owned E (self w') = []))
      w.
 Proof.
-  intros Hsrc Hw Hl Hc made. unfold clone_from_src.
+  intros Hsrc Hw Hl Hc made orphan. unfold clone_from_src.
   apply (wp_finally_drop_gen E _ _ (clone_post src (len src) 0 w false)).
   - apply wp_bind. apply wp_get_cap.
     pose proof (WF_len_le_cap _ Hsrc) as Hle.
@@ -810,15 +884,16 @@ Proof.
     replace (Nat.min (cap (self w)) (len src)) with (len src) by lia.
     eapply wp_mono; [apply (clone_loop_acct src Hsrc (len src) 0 w Hw Hl); lia | |]; cbn beta.
     + intros _ w' (H1 & H2 & H3 & H4 & lost & H5 & H6). destruct (H4 eq_refl) as [H4a H4b].
+      rewrite app_nil_r in H3.
       split; [exact H1|]. split; [exact H2|]. split; [lia|]. split; [exact H4b|]. split; [exact H3|].
       exists lost. auto.
     + intros w' H. exact H.
-  - intros w1 (H1 & H2 & H3 & _ & lost & H5 & H6).
-    eapply wp_mono; [apply drop_map_log; exact H1 | |]; cbn beta.
-    + intros _ w2 (d & Hd & HP). exists d, lost. split; [rewrite Hd, H3; reflexivity|].
-      split; [fold made in H5; perm_ids | intros Ht; apply H6; exact Ht].
-    + intros w2 (d & Hd & HP). exists d, lost. split; [rewrite Hd, H3; reflexivity|].
-      split; [fold made in H5; perm_ids | intros Ht; apply H6; exact Ht].
+  - intros w1 (H1 & H2 & H3 & _ & lost & H5 & H6). fold made in H5. fold orphan in H3.
+    eapply wp_mono; [apply unwind_map_log; exact H1 | |]; cbn beta; [|intros w' []].
+    intros _ w2 [(d & Hd & HP) Ho]. exists (orphan ++ d), lost.
+    split; [rewrite Hd, H3, app_assoc; reflexivity|].
+    split; [perm_ids|].
+    intros Ht. destruct (H6 Ht) as [Hlost Ht1]. split; [exact Hlost | apply Ho; exact Ht1].
 Qed.
 
 Lemma owned_empty_tidy (m : map) : len m = 0 -> Tidy m -> owned E m = [].
@@ -829,37 +904,40 @@ Qed.
 (* C2: Clone into a fresh (tidy, empty) map.
    (i)  normal return: nothing was destroyed, the clone holds exactly the
         objects the Clone callbacks made, the source is a parameter (untouched);
-   (ii) a Clone panics: the unwinding destructor of the partial clone destroys
-        [d]; every identity of [d] is one of the objects made, each at most as
-        often as it was made; whatever was made and not destroyed is still in
-        the abandoned clone's slots (only when a Drop panics as well). *)
+   (ii) a Clone panics: everything the Clone callbacks had made so far — the
+        pairs written into the partial clone and the key whose value's Clone
+        panicked — is destroyed, each exactly once ([d] is a permutation of
+        them), nothing else is, and the abandoned clone holds nothing. *)
 Lemma clone_acct src (w : world) :
   WF src -> WF (self w) -> len (self w) = 0 -> cap (self w) = cap src -> Tidy (self w) ->
   let made := flat_map (ids_pair E) (clone_made src (len src) 0 (cb w)) in
+  let orphan := clone_orphans src (len src) 0 (cb w) in
   wp (clone_from_src E src)
      (fun _ w' => WF (self w') /\ Tidy (self w') /\ len (self w') = len src /\
                   length (clone_made src (len src) 0 (cb w)) = len src /\
                   dropped (log w') = dropped (log w) /\
                   Permutation (owned E (self w')) made)
-     (fun w' => exists d, dropped (log w') = dropped (log w) ++ d /\
-                          Permutation (owned E (self w') ++ d) made)
+     (fun w' => owned E (self w') = [] /\
+                exists d, dropped (log w') = dropped (log w) ++ d /\ Permutation d (made ++ orphan))
      w.
 Proof.
-  intros Hsrc Hw Hl Hc Ht made.
+  intros Hsrc Hw Hl Hc Ht made orphan.
   pose proof (owned_empty_tidy (self w) Hl Ht) as Ho.
   eapply wp_mono; [apply (clone_acct_gen src w Hsrc Hw Hl Hc) | |]; cbn beta.
   - intros _ w' (H1 & H2 & H3 & H4 & H5 & lost & H6 & H7). destruct (H7 Ht) as [-> Ht'].
     split; [exact H1|]. split; [exact Ht'|]. split; [exact H3|]. split; [exact H4|]. split; [exact H5|].
     fold made in H6. rewrite Ho in H6. rewrite app_nil_r in H6. exact H6.
-  - intros w' (d & lost & H1 & H2 & H3). rewrite (H3 Ht) in H2. exists d. split; [exact H1|].
-    fold made in H2. rewrite Ho in H2. rewrite app_nil_r in H2. exact H2.
+  - intros w' (d & lost & H1 & H2 & H3). destruct (H3 Ht) as [Hlost Ho'].
+    split; [exact Ho'|]. exists d. split; [exact H1|].
+    fold made orphan in H2. rewrite Hlost, Ho, Ho' in H2. cbn [app] in H2. rewrite app_nil_r in H2. exact H2.
 Qed.
 
 (* no identity in two places / destroyed twice, provided the objects the Clone
    callbacks make are new and pairwise distinct *)
 Lemma clone_NoDup src (w : world) :
   WF src -> WF (self w) -> len (self w) = 0 -> cap (self w) = cap src -> Tidy (self w) ->
-  NoDup (flat_map (ids_pair E) (clone_made src (len src) 0 (cb w)) ++ dropped (log w)) ->
+  NoDup (flat_map (ids_pair E) (clone_made src (len src) 0 (cb w)) ++
+         clone_orphans src (len src) 0 (cb w) ++ dropped (log w)) ->
   wp (clone_from_src E src)
      (fun _ w' => NoDup (owned E (self w') ++ dropped (log w')))
      (fun w' => NoDup (owned E (self w') ++ dropped (log w'))) w.
@@ -867,7 +945,7 @@ Proof.
   intros Hsrc Hw Hl Hc Ht Hn.
   eapply wp_mono; [apply (clone_acct src w Hsrc Hw Hl Hc Ht) | |]; cbn beta.
   - intros _ w' (_ & _ & _ & _ & Hd & HP). rewrite Hd. perm_ids.
-  - intros w' (d & Hd & HP). rewrite Hd. perm_ids.
+  - intros w' (Ho & d & Hd & HP). rewrite Hd, Ho. cbn [app]. perm_ids.
 Qed.
 
 End CloneOwned.
@@ -1018,7 +1096,7 @@ Proof.
     + intros w1 [Hs1 Hg1]. exists []. split; [constructor|]. cbn [flat_map].
       apply cpostP_refl; [exact Hw | exact Hs1 | rewrite Hg1; reflexivity].
   - intros w1 (made & Hm & Hw1 & Hc1 & lost & HP).
-    eapply wp_mono; [apply drop_map_acct_nolost; exact Hw1 | |]; cbn beta.
+    eapply wp_mono; [apply unwind_map_acct_nolost; exact Hw1 | |]; cbn beta.
     + intros _ w2 H. exists made. split; [exact Hm|]. exists lost. unfold acct in *. perm_ids.
     + intros w2 H. exists made. split; [exact Hm|]. exists lost. unfold acct in *. perm_ids.
 Qed.
